@@ -12,6 +12,17 @@ def key_str(key):
     return " ".join("%s=%s" % (k, key[k]) for k in sorted(key))
 
 
+def same_finding(a, b):
+    """Keys equal; two crashes count as the same finding whatever the signal or
+    sanitizer class (memory corruption does not die the same way twice)."""
+    if a is None or b is None:
+        return False
+    if str(a.get("clause", "")).startswith("crash_") and str(b.get("clause", "")).startswith("crash_") \
+            and a.get("clause") != "crash_timeout" and b.get("clause") != "crash_timeout":
+        return True
+    return key_str(a) == key_str(b)
+
+
 class Check:
     prop = "C00"
     level = "exploration"
@@ -105,7 +116,7 @@ class Check:
                     continue
             k1, h1 = self.reproduce(f["replay"])
             k2, h2 = self.reproduce(f["replay"])
-            if k1 is None or k2 is None or key_str(k1) != key_str(f["key"]) or key_str(k2) != key_str(f["key"]) or h1 != h2:
+            if not same_finding(k1, f["key"]) or not same_finding(k2, f["key"]) or h1 != h2:
                 nd = simdrv.save_replay(self.prop, "nondet_" + hashlib.sha1(key_str(f["key"]).encode()).hexdigest()[:8], f["replay"])
                 print("HARNESS-NONDETERMINISM property=%s finding=%s first=%s/%s second=%s/%s replay=%s" % (
                     self.prop, key_str(f["key"]), k1 and key_str(k1), h1, k2 and key_str(k2), h2, nd))
@@ -123,12 +134,12 @@ class Check:
             g["replay"]["expect"] = g["key"]
             path = simdrv.save_replay(self.prop, name, g["replay"])
             k3, h3 = self.reproduce(g["replay"], fresh=True)
-            if k3 is None or key_str(k3) != key_str(g["key"]):
+            if not same_finding(k3, g["key"]):
                 # fall back to the unminimised replay before giving up
                 f["replay"]["expect"] = f["key"]
                 path = simdrv.save_replay(self.prop, name + "_full", f["replay"])
                 k4, h4 = self.reproduce(f["replay"], fresh=True)
-                if k4 is None or key_str(k4) != key_str(f["key"]):
+                if not same_finding(k4, f["key"]):
                     print("HARNESS-NONDETERMINISM property=%s: fresh replay does not reproduce %s" % (self.prop, key_str(f["key"])))
                     rc = max(rc, 2)
                     continue
